@@ -49,8 +49,8 @@ REGISTRY = dict(
 
 TIERS = {
     "quick": dict(lists=100, a=["small"], b=["quick"], refines=None),
-    "thorough": dict(lists=1500, a=["thorough-backend", "thorough-cli"], b=["thorough-backend", "thorough-cli"],
-                     refines="thorough-all-backend"),
+    "thorough": dict(lists=1500, a=["thorough-backend", "thorough-cli", "thorough-triples"],
+                     b=["thorough-backend", "thorough-cli", "thorough-triples"], refines="thorough-all-backend"),
 }
 
 CFG_A = """SPECIFICATION Spec
@@ -87,6 +87,7 @@ IDENT = {"user_url": ("UserURL", "UserUrl"), "id": ("ID", "Id"), "http_api": ("H
 
 PROBE_IDL = """namespace go demo
 include "inc.thrift"
+include "e.thrift"
 enum Color { RED = 1, GREEN = 2 }
 struct Inner { 1: string v }
 struct FooResult {
@@ -144,6 +145,7 @@ def out_dict(t):
 class Expect:
     def __init__(self):
         self.outs = {}      # key -> set of normalized outcomes
+        self.two = []       # two-target predictions of the implementation model
 
     def add(self, key, outs, src):
         s = set(outs)
@@ -206,7 +208,8 @@ def best_diff(got, anomalies, outs):
     if got is None:
         return list(anomalies)
     best = None
-    for o in sorted(outs):
+    same = [o for o in sorted(outs) if o[0] == got[0]]     # explain against an outcome of the same kind
+    for o in same or sorted(outs):
         d = diff_out(got, o)
         if best is None or len(d) < len(best):
             best = d
@@ -251,7 +254,7 @@ def cls_of_case(key, outs):
 
 
 # ------------------------------------------------------------------------------------------------ binary
-def text_obs(outdir, emptydir):
+def text_obs(outdir):
     txt = {}
     for r, _, fs in os.walk(outdir):
         for f in fs:
@@ -282,7 +285,7 @@ def text_obs(outdir, emptydir):
     o["no_processor"] = "SvcClient" not in main
     o["no_default_serdes"] = "fieldIDToName_Inner" not in main
     o["with_reflection"] = "demo/probe-reflection.go" in txt
-    o["skip_empty"] = not os.path.exists(os.path.join(emptydir, "empty", "e.go"))
+    o["skip_empty"] = "empty/e.go" not in txt     # -r: a file per include, e.thrift has no content
     return o
 
 
@@ -334,14 +337,12 @@ def run_binary(ctx, thriftgo, keys):
         args = keys[i][1]
         g = "go" + (":" + ",".join(args) if args else "")
         o1 = os.path.join(pdir, "o%d" % i)
-        o2 = os.path.join(pdir, "e%d" % i)
-        p = ctx.run([thriftgo, "-o", o1, "-g", g, "probe.thrift"], cwd=pdir, timeout=120, check=False)
-        res = {"rc": p.returncode, "msg": (p.stdout + p.stderr)[-400:], "cmd": "thriftgo -o out -g %s probe.thrift" % g}
+        p = ctx.run([thriftgo, "-r", "-o", o1, "-g", g, "probe.thrift"], cwd=pdir, timeout=300, check=False)
+        res = {"rc": p.returncode, "msg": (p.stdout + p.stderr)[-400:],
+               "cmd": "thriftgo -r -o out -g %s probe.thrift" % g}
         if p.returncode == 0:
-            ctx.run([thriftgo, "-o", o2, "-g", g, "e.thrift"], cwd=pdir, timeout=120, check=False)
-            res["text"] = text_obs(o1, o2)
+            res["text"] = text_obs(o1)
         shutil.rmtree(o1, ignore_errors=True)
-        shutil.rmtree(o2, ignore_errors=True)
         return res
     with concurrent.futures.ThreadPoolExecutor(max_workers=vlib.NCPU) as ex:
         return list(ex.map(one, range(len(keys))))
@@ -426,6 +427,7 @@ def run_b(ctx, data, lists, given, tier, exp):
     nonref = set(key_of(c) for c in lines_with(r, "NONREFINE "))
     sh = lines_with(r, "SHADOWS ")
     pp = lines_with(r, "PREFIXPAIRS ")
+    exp.two = lines_with(r, "TWOTARGETS ")
     return keys, div, nonref, (sh[0] if sh else []), (pp[0] if pp else []), files
 
 
@@ -438,6 +440,33 @@ def doc_names_of_spec():
     m = re.search(r"ValueNames\s*==\s*\{([^}]*)\}", t)
     names += re.findall(r'"([a-z0-9_]+)"', m.group(1))
     return names
+
+
+def check_readme(doc):
+    """oracle drift: the hand-transcribed Doc must still be what README.md documents"""
+    with open(os.path.join(vlib.REPO, "README.md")) as fh:
+        t = fh.read()
+    m = re.search(r"### Go backend options.*?\n\| Option \|.*?\n\|[-| ]+\n(.*?)\n\n", t, re.S)
+    if not m:
+        raise vlib.MachineryError("README.md: option table not found (oracle drift)")
+    rows = {}
+    for ln in m.group(1).splitlines():
+        c = [x.strip() for x in ln.strip().strip("|").split("|")]
+        n = re.match(r"`([a-z0-9_]+)", c[0])
+        if n:
+            rows[n.group(1)] = c[1]
+    drift = []
+    for n, d in rows.items():
+        if n not in doc["names"]:
+            drift.append("README documents %s, Doc does not" % n)
+        elif n in doc["bools"] and ("true" in d) != (n in doc["on"]):
+            drift.append("README default of %s is %r, Doc says %s" % (n, d, n in doc["on"]))
+    for n in doc["names"]:
+        if n not in rows and n not in doc["helponly"] and n != "always_gen_json_tag":
+            drift.append("Doc has %s, README does not" % n)
+    if len(rows) < 50 or drift:
+        raise vlib.MachineryError("oracle drift between README.md and Doc in spec/Options/Options.tla: %s"
+                                  % ("; ".join(drift[:5]) or "%d rows parsed" % len(rows)))
 
 
 def check_help(ctx, thriftgo, dump):
@@ -463,13 +492,29 @@ def evaluate_inproc(ctx, harness, exp, keys, boolnames, tag):
         if d:
             bad[k] = (d, o)
     ctx.traces_validated += len(keys)
+    if bad and not tag.endswith("-again"):
+        # verdict rule: a violating case is executed once more
+        again, _, _, _ = evaluate_again(ctx, harness, exp, sorted(bad), boolnames, tag + "-again")
+        flaky = [k for k in bad if k not in again or again[k][0] != bad[k][0]]
+        if flaky:
+            raise vlib.MachineryError("%d violating case(s) do not reproduce when run again, e.g. %r" % (len(flaky), flaky[0]))
+    if tag.endswith("-again"):
+        return bad, obs, keys, []
     # leakage between cases: same cases, no reset of the process-wide singletons, shuffled
     rnd = random.Random(ctx.seed)
     idx = list(range(len(keys)))
     rnd.shuffle(idx)
+    idx = idx[:4000]
     obs2 = run_harness(ctx, harness, [dict(reqs[i], noreset=True) for i in idx], tag + "-noreset")
     leaked = [keys[i] for j, i in enumerate(idx) if obs2[j] != obs[i]]
     return bad, obs, keys, leaked
+
+
+def evaluate_again(ctx, harness, exp, keys, boolnames, tag):
+    n0, d0, t0 = ctx.evaluations, set(ctx.distinct), ctx.traces_validated
+    r = evaluate_inproc(ctx, harness, exp, keys, boolnames, tag)
+    ctx.evaluations, ctx.distinct, ctx.traces_validated = n0, d0, t0      # not counted twice
+    return r
 
 
 def report_inproc(ctx, exp, bad):
@@ -515,6 +560,11 @@ def evaluate_binary(ctx, thriftgo, exp, keys):
         if d:
             bad[k] = (d, r)
     ctx.traces_validated += len(keys)
+    if bad:
+        res2 = run_binary(ctx, thriftgo, sorted(bad))
+        flaky = [k for k, r2 in zip(sorted(bad), res2) if r2["rc"] != bad[k][1]["rc"] or r2.get("text") != bad[k][1].get("text")]
+        if flaky:
+            raise vlib.MachineryError("%d violating binary case(s) do not reproduce when run again, e.g. %r" % (len(flaky), flaky[0]))
     badset = set(bad)
     for k in sorted(bad):
         d, r = bad[k]
@@ -524,6 +574,44 @@ def evaluate_binary(ctx, thriftgo, exp, keys):
                       "thriftgo -g go:%s: exit status / generated text contradict every documented outcome in: %s"
                       % (",".join(k[1]), ",".join(d)), rerun=r.get("cmd"))
     return bad
+
+
+def two_targets(ctx, harness, exp, boolnames):
+    """Beyond the statement: two -g targets in one run share the naming-style objects.  The model's
+    prediction for every pair of small target lists is replayed (args.Targets() over both, then backend
+    1, then backend 2); a target that generates with settings its own list does not allow is a FINDING
+    (a note in the evidence), never a verdict.  Model and real code must agree."""
+    if not exp.two:
+        return
+    obs = run_harness(ctx, harness, [{"op": "leak", "first": t["t1"] if isinstance(t["t1"], list) else [],
+                                      "second": t["t2"] if isinstance(t["t2"], list) else []} for t in exp.two],
+                      "two-targets")
+    leaks, mismatch = [], []
+    for t, o in zip(exp.two, obs):
+        a1 = t["t1"] if isinstance(t["t1"], list) else []
+        a2 = t["t2"] if isinstance(t["t2"], list) else []
+        for which, args, ob, pred, allowed in ((1, a1, o["first"], t["obs1"], t["allowed1"]),
+                                               (2, a2, o["second"], t["obs2"], t["allowed2"])):
+            got, an = project(ob, boolnames)
+            if got is None:
+                continue
+            if got[5] is None:
+                got = got[:5] + (norm_out(pred)[5],)
+            if got != norm_out(pred):
+                mismatch.append((a1, a2, which))
+            if got not in set(norm_out(x) for x in allowed):
+                leaks.append("-g go:%s -g go:%s -> target %d generates with %s" % (
+                    ",".join(a1), ",".join(a2), which,
+                    "initialism correction " + ("off" if "ignore_initialisms" in got[1] else "on")))
+    ctx.extra_cov["two_targets"] = {"pairs_of_target_lists": len(exp.two), "targets_with_foreign_settings": len(leaks),
+                                    "model_and_code_disagree": len(mismatch)}
+    if leaks:
+        ctx.notes.append("FINDING (outside the statement, which speaks about one option list): with two -g targets in "
+                         "one run a target can generate with the initialism setting of the OTHER target, because "
+                         "naming styles are process-wide objects and args.Targets() pre-runs every option list: "
+                         "%d of %d targets, e.g. %s" % (len(leaks), 2 * len(exp.two), "; ".join(leaks[:3])))
+    if mismatch:
+        ctx.notes.append("two-target model and real code disagree on %d target(s), e.g. %r" % (len(mismatch), mismatch[0]))
 
 
 def binary_keys(keys, tier):
@@ -613,10 +701,12 @@ def run(ctx, args):
         fa, fb = ex.submit(a_runs), ex.submit(b_runs)
         ea, akeys, doc = fa.result()
         eb, bkeys, div, nonref, shadows, prefixpairs, bfiles = fb.result()
+    exp.two = eb.two
     for e, src in ((ea, "MC_Options"), (eb, "MC_OptionsImpl")):
         for k, v in e.outs.items():
             exp.add(k, v, src)
     boolnames = set(doc["bools"])
+    check_readme(doc)
     if set(doc["names"]) - set(given):
         raise vlib.MachineryError("Doc names not found by doc_names_of_spec: %s" % (set(doc["names"]) - set(given)))
     if doc["helponly"]:
@@ -666,15 +756,7 @@ def run(ctx, args):
     if leaked:
         ctx.notes.append("process-wide state: %d case(s) observe other settings when the naming-style singletons "
                          "are not reset between cases (e.g. %r)" % (len(leaked), leaked[0]))
-    lk = run_harness(ctx, harness, [{"op": "leak", "first": ["ignore_initialisms"], "second": []},
-                                    {"op": "leak", "first": ["naming_style=golint", "ignore_initialisms"],
-                                     "second": ["naming_style=golint"]}], "leak")
-    for r, what in zip(lk, ("-g go:ignore_initialisms -g go", "-g go:naming_style=golint,ignore_initialisms "
-                                                               "-g go:naming_style=golint")):
-        if r.get("ident", {}).get("user_url") != "UserURL":
-            ctx.notes.append("FINDING (outside the statement): two -g targets in one run, `%s`: the second target "
-                             "generates %s -- the initialism setting of the first target leaks through the "
-                             "process-wide naming style object" % (what, r.get("ident", {}).get("user_url")))
+    two_targets(ctx, harness, exp, boolnames)
     # -------- real binary
     bk = binary_keys(keys, ctx.tier)
     if len(bk) < len(doc["names"]) * 3:
